@@ -1050,7 +1050,9 @@ pub struct InSampledTraceFilter {
 
 impl Filter for InSampledTraceFilter {
     fn matches<E: ToEvent>(&self, _: E) -> bool {
-        if let Some(active) = get_active_traceparent() {
+        // An invalid traceparent doesn't belong to any trace
+        if let Some(active) = get_active_traceparent().filter(|active| active.traceparent.is_valid())
+        {
             active.traceparent.trace_flags().is_sampled()
         } else {
             self.match_events_outside_traces
